@@ -103,12 +103,35 @@ func runC19(c *mon.Case) {
 				}
 			}
 		}
+		// What Serialize returned is kept (a sender keeps it for
+		// retransmissions) and decoded again after all the other messages
+		// of the slice have been serialised.
+		type kept struct {
+			ser, snapshot []byte
+			m             gbn.Message
+			md            *mailbox.MsgData
+		}
+		var keep []kept
+		defer func() {
+			for _, k := range keep {
+				n++
+				if !bytes.Equal(k.ser, k.snapshot) {
+					what := fmt.Sprintf("%T", k.m)
+					if k.md != nil {
+						what = "MsgData"
+					}
+					c.Shard.Violate("serialized-bytes-changed", fmt.Sprintf("the bytes returned by %s.Serialize (%d bytes, %x..) were overwritten by later Serialize calls (now %x..)", what, len(k.snapshot), trunc(k.snapshot), trunc(k.ser)), nil)
+					break
+				}
+			}
+		}()
 		for _, m := range msgs {
 			ser, err := m.Serialize()
 			if err != nil {
 				c.Shard.Violate("serialize-error", fmt.Sprintf("%T%+v: %v", m, m, err), nil)
 				continue
 			}
+			keep = append(keep, kept{ser: ser, snapshot: append([]byte{}, ser...), m: m})
 			m2, err := gbn.Deserialize(ser)
 			n++
 			if err != nil || !msgEqual(m, m2) {
@@ -126,6 +149,7 @@ func runC19(c *mon.Case) {
 				c.Shard.Violate("msgdata-serialize-error", err.Error(), nil)
 				continue
 			}
+			keep = append(keep, kept{ser: ser, snapshot: append([]byte{}, ser...), md: m})
 			for _, tgt := range []*mailbox.MsgData{mailbox.NewMsgData(0, nil), reused} {
 				err = tgt.Deserialize(ser)
 				n++
